@@ -1,9 +1,9 @@
 CONSTANTS
-  MaxN = 6
-  Kinds <- KindsStruct
+  MaxN = 9
+  Kinds <- KindsTemporal
   Bases <- BasesEmpty
   MaxSteps = 99
-  DUP = FALSE
+  DUP = TRUE
   SFlaws <- SFlawsDef
 SPECIFICATION Spec
-INVARIANT EmitFew
+INVARIANT EmitCopy
